@@ -386,17 +386,22 @@ def dispatchMacroDo (cfg : Cfg) (nextChar : Char) : Prog Unit := do
     emitD .SEMI
     pushMode .wsOrCStyleCommentOnly
   else if nextChar == '%' && isUnicodeNameStart (← peekNext) then
+    let depth0 ← perform .modeDepth
+    let hadCheckpoint ← perform .hasCheckpoint
     startToken
     lexMacroIdentifier cfg false
+    let at_ := min depth0 (← perform .modeDepth)
     let notUntilWhile := match (← lastTokTy) with
       | some ty => !tokOneOf ty [.KwmUntil, .KwmWhile]
       | none => false
     if notUntilWhile then
-      pushMode (.macroEval (EvalFlags.new .integer .none true true false) 0)
-      pushMode .wsOrCStyleCommentOnly
-      pushMode (.expectSymbol .ASSIGN .DEFAULT)
-      pushMode .wsOrCStyleCommentOnly
-      pushMode (.macroNameExpr true none)
+      -- inserted *below* the modes pushed by the macro identifier lexing
+      perform (.insertModeAt at_ (.macroNameExpr true none))
+      perform (.insertModeAt at_ .wsOrCStyleCommentOnly)
+      perform (.insertModeAt at_ (.expectSymbol .ASSIGN .DEFAULT))
+      perform (.insertModeAt at_ .wsOrCStyleCommentOnly)
+      perform (.insertModeAt at_ (.macroEval (EvalFlags.new .integer .none true true false) 0))
+      if !hadCheckpoint then perform (.bumpCheckpointModeLen 5)
   else
     pushMode (.macroEval (EvalFlags.new .integer .none true true false) 0)
     pushMode .wsOrCStyleCommentOnly
